@@ -1555,17 +1555,38 @@ func (c *immuClient) VerifiedTxByID(ctx context.Context, tx uint64) (*schema.Tx,
 
 	var sourceID, targetID uint64
 	var sourceAlh, targetAlh [sha256.Size]byte
+	var provenAlh [sha256.Size]byte
 
 	if state.TxId <= tx {
 		sourceID = state.TxId
 		sourceAlh = schema.DigestFromProto(state.TxHash)
 		targetID = tx
 		targetAlh = dualProof.TargetTxHeader.Alh()
+		provenAlh = targetAlh
 	} else {
 		sourceID = tx
 		sourceAlh = dualProof.SourceTxHeader.Alh()
 		targetID = state.TxId
 		targetAlh = schema.DigestFromProto(state.TxHash)
+		provenAlh = sourceAlh
+	}
+
+	// the returned transaction must be the proven one: its header, with the entries digest
+	// re-calculated from the returned entries, must yield the proven accumulative hash
+	if vTx.Tx == nil || vTx.Tx.Header == nil || vTx.Tx.Header.Id != tx ||
+		int(vTx.Tx.Header.Nentries) != len(vTx.Tx.Entries) {
+		return nil, store.ErrCorruptedData
+	}
+
+	retHdr := schema.TxFromProto(vTx.Tx).Header()
+	if retHdr.Eh != schema.DigestFromProto(vTx.Tx.Header.EH) || retHdr.Alh() != provenAlh {
+		return nil, store.ErrCorruptedData
+	}
+
+	for _, e := range vTx.Tx.Entries {
+		if len(e.Value) > 0 && sha256.Sum256(e.Value) != schema.DigestFromProto(e.HValue) {
+			return nil, store.ErrCorruptedData
+		}
 	}
 
 	if state.TxId > 0 {
